@@ -188,6 +188,22 @@ func gen(r *hlib.Rand, n int, tier, profile string, emit func(string, ...any)) {
 		}
 		rec(nil, 3)
 	}
+	// deterministic family (independent of the random stream): machines with 2-4 NUMA nodes that each hold at
+	// least `routines` candidates (two or more eligible nodes), every small hash value in both halves of h
+	for _, nodes := range []int{2, 3, 4} {
+		for _, per := range []int{2, 4} {
+			var sb strings.Builder
+			ncpu := nodes * per
+			for c := 0; c < ncpu; c++ {
+				fmt.Fprintf(&sb, " %d %d %d", c, c/per, c/2)
+			}
+			for _, routines := range []int{1, 2, per} {
+				for h := uint64(0); h < 4; h++ {
+					emit("arr %d %d 0 %d%s", routines, h|h<<32, ncpu, sb.String())
+				}
+			}
+		}
+	}
 	var last string
 	for i := 0; i < n; i++ {
 		switch r.Intn(10) {
@@ -250,7 +266,15 @@ func newExec(t *testing.T) func([]string) string {
 					coreOf[c] = hlib.Atoi(s)
 				}
 			}
-			return ints(cpupick.VerifArrange(cands, nodeOf, coreOf, zc, routines, h))
+			// the same question asked repeatedly must get the same answer ("the same for the same instance
+			// key and topology"): a dependence on Go's randomised map iteration order shows up here
+			first := ints(cpupick.VerifArrange(cands, nodeOf, coreOf, zc, routines, h))
+			for k := 0; k < 12; k++ {
+				if again := ints(cpupick.VerifArrange(cands, nodeOf, coreOf, zc, routines, h)); again != first {
+					return "unstable " + first + " | " + again
+				}
+			}
+			return first
 		case "flat":
 			routines, h, n := hlib.Atoi(a[1]), hlib.Atou(a[2]), hlib.Atoi(a[3])
 			cands := atoiList(a[4 : 4+max(n, 0)])
